@@ -33,7 +33,11 @@ S2V = T.op('add', T.op('mul', T.op('sub', NF_N, T.mk_flt(Fraction(1))), V), T.op
 
 def refs():
     mean = T.op('div', S1, NF_N)
-    var = T.op('div', T.op('sub', S2V, T.op('div', T.op('mul', S1, S1), NF_N)), T.op('sub', NF_N, F1))
+    # written the way today's code scales: S2 - mean*S1 keeps every intermediate within (data^2, n^1); the textbook
+    # S2 - S1^2/n is the same real number but squares the *sum* (data^2, n^2), which overflows n times earlier - with the
+    # zero clamp of the variance that is a silently collapsed interval (seeds C01-k / C16-k).  The reference fixes the
+    # dynamic range the growth-order rule compares with; the identity itself is insensitive to the form.
+    var = T.op('div', T.op('sub', S2V, T.op('mul', mean, S1)), T.op('sub', NF_N, F1))
     sd = T.op('sqrt', var)
     se = T.op('div', sd, T.op('sqrt', NF_N))
     nu = T.op('sub', NF_N, F1)
@@ -201,7 +205,7 @@ def run_cfg(chk, facts, cfg):
                 chk.saw(facts, fn, paths=len(paths))
                 check_sqrt_domain(chk, key, where, paths, '%s(%s)' % (label, kname), counts)
                 check_mean_interval(chk, PID, key, where, sm, im, cm, paths, kind, L, mean, se, nu, dom,
-                                    '%s(%s): bounds are mean -/+ c*s/sqrt(n) with c the t(n-1) quantile (normal above ~1e5) at q' % (label, kname))
+                                    '%s(%s): bounds are mean -/+ c*s/sqrt(n) with c the t(n-1) quantile (normal above ~1e5) at q' % (label, kname), stat_atoms=[(S2V, 'S2')])
             except (Unsupported, NotReal) as e:
                 chk.ob(key, 'E3+E4 formula', label, None, str(e), where)
 
@@ -229,7 +233,7 @@ def run_cfg(chk, facts, cfg):
                     continue
                 counts['folds'] += 1
                 check_mean_interval(chk, PID, key, where, sm, im, cm, paths, kind, L, mean, se, nu, dom,
-                                    '%s(%s) == ci_mean of the folded state (same formula)' % (label, kname), subst=sub)
+                                    '%s(%s) == ci_mean of the folded state (same formula)' % (label, kname), subst=sub, stat_atoms=[(S2V, 'S2')])
             except (Unsupported, NotReal) as e:
                 chk.ob(key, 'E3+E4 formula', label, None, str(e), where)
     # remaining forwarding methods of the StatisticsOps impl return their callee's result unchanged
